@@ -19,7 +19,8 @@ use lightning_signer::node::{Node, NodeConfig, NodeServices};
 use lightning_signer::persist::Persist;
 use lightning_signer::policy::simple_validator::SimpleValidatorFactory;
 use lightning_signer::signer::derive::KeyDerivationStyle;
-use lightning_signer::txoo::proof::TxoProof;
+use lightning_signer::lightning::types::payment::PaymentHash;
+use lightning_signer::tx::tx::{CommitmentInfo2, HTLCInfo2};
 use lightning_signer::util::clock::ManualClock;
 use lightning_signer::util::test_utils::*;
 use std::collections::{BTreeMap, BTreeSet, HashMap};
@@ -38,6 +39,8 @@ fn did(d: u64) -> u64 { 10 * d + 2 }
 fn mid(d: u64) -> u64 { 10 * d + 3 }
 fn uid(d: u64) -> u64 { 10 * d + 4 }
 fn sid(d: u64) -> u64 { 10 * d + 5 }
+fn tid(d: u64) -> u64 { 10 * d + 6 } // spend of the HTLC output of U_d
+fn vid(d: u64) -> u64 { 10 * d + 7 } // spend of the second-level output T_d:0
 
 fn funding_tx(d: u64) -> Transaction {
     mk_tx(vec![make_outpoint(10 * d as u32 + 1), make_outpoint(10 * d as u32 + 2)], 1, 200 + d as u32)
@@ -138,25 +141,38 @@ impl W15 {
             self.persister.update_tracker(&self.node.get_id(), &tracker).unwrap();
         }
         if !self.txs.contains_key(&uid(d)) {
+            // holder commitment 7 with our output and one offered HTLC (which the node must sweep through a
+            // second-level transaction), known to the enforcement state and persisted
             let commit_num = 7u64;
-            let (to_holder, to_cp, feerate) = (1_000_000u64 + d, 1_990_000u64, 1000u32);
+            let (to_holder, to_cp, feerate) = (1_000_000u64 + d, 1_950_000u64, 1000u32);
+            let offered = vec![HTLCInfo2 { value_sat: 30_000 + d, payment_hash: PaymentHash([d as u8; 32]), cltv_expiry: 100 }];
+            let persister = self.persister.clone();
+            let node_id = self.node.get_id();
             self.node.with_channel(&id, |chan| {
-                chan.set_next_holder_commit_num_for_testing(commit_num);
+                chan.set_next_holder_commit_num_for_testing(commit_num + 1);
                 let p = chan.get_per_commitment_point(commit_num)?;
                 chan.set_next_counterparty_commit_num_for_testing(commit_num + 1, p);
+                chan.enforcement_state.current_holder_commit_info =
+                    Some(CommitmentInfo2::new(false, to_cp, to_holder, offered.clone(), vec![], feerate));
+                persister.update_channel(&node_id, chan).unwrap();
                 Ok(())
             }).unwrap();
             let secp_ctx = lightning_signer::bitcoin::secp256k1::Secp256k1::signing_only();
             let node_ctx = TestNodeContext { node: self.node.clone(), secp_ctx };
             let counterparty_keys = make_test_counterparty_keys(&node_ctx, &id, setup.channel_value_sat);
             let chan_ctx = TestChannelContext { channel_id: id.clone(), setup: setup.clone(), counterparty_keys };
-            let commit = channel_commitment(&node_ctx, &chan_ctx, commit_num, feerate, to_holder, to_cp, vec![], vec![]).tx.unwrap();
+            let commit = channel_commitment(&node_ctx, &chan_ctx, commit_num, feerate, to_holder, to_cp, offered.clone(), vec![]).tx.unwrap();
             let u = commit.trust().built_transaction().transaction.clone();
             let our = u.output.iter().position(|o| o.value.to_sat() == to_holder).unwrap() as u32;
-            self.kinds.insert(uid(d), format!("c{}/-", our));
+            let hv = u.output.iter().position(|o| o.value.to_sat() == 30_000 + d).unwrap() as u32;
+            self.kinds.insert(uid(d), format!("c{}/{}", our, hv));
             let s = mk_tx(vec![OutPoint::new(u.compute_txid(), our)], 1, 230 + d as u32);
+            let t = mk_tx(vec![OutPoint::new(u.compute_txid(), hv)], 1, 240 + d as u32);
+            let v = mk_tx(vec![OutPoint::new(t.compute_txid(), 0)], 1, 250 + d as u32);
             self.put(uid(d), u);
             self.put(sid(d), s);
+            self.put(tid(d), t);
+            self.put(vid(d), v);
         }
         Ok(())
     }
@@ -250,13 +266,28 @@ impl W15 {
         self.node.get_channels().contains_key(&chan_id(d))
     }
 
+    /// ghost: depth (tip = 1) of the deepest terminal event of channel d on the surviving chain
+    fn burial_depth(&self, d: u64) -> Option<usize> {
+        let n = self.chain.len();
+        let depth = |id: u64| self.chain.iter().position(|b| b.contains(&id)).map(|i| n - i);
+        let swept = match (depth(uid(d)), depth(sid(d)), depth(tid(d)), depth(vid(d))) {
+            (Some(a), Some(b), Some(c), Some(e)) => Some(a.min(b).min(c).min(e)),
+            _ => None,
+        };
+        [depth(did(d)), depth(mid(d)), swept].into_iter().flatten().max()
+    }
+
     /// ghost: is a terminal event of channel d buried ≥ MIN_DEPTH on the surviving chain?
     fn buried(&self, d: u64) -> bool {
         let n = self.chain.len();
         let depth = |id: u64| self.chain.iter().position(|b| b.contains(&id)).map(|i| n - i);
         let deep = |x: Option<usize>| x.map(|k| k >= MIN_DEPTH_SPEC).unwrap_or(false);
-        // unilateral close fully swept: U_d confirmed and S_d confirmed; the later of the two counts
-        let swept = match (depth(uid(d)), depth(sid(d))) { (Some(a), Some(b)) => Some(a.min(b)), _ => None };
+        // unilateral close with all of the node's outputs swept: U_d, the sweep of our output S_d, the HTLC
+        // spend T_d and the second-level sweep V_d are all on the surviving chain; the latest of them counts
+        let swept = match (depth(uid(d)), depth(sid(d)), depth(tid(d)), depth(vid(d))) {
+            (Some(a), Some(b), Some(c), Some(e)) => Some(a.min(b).min(c).min(e)),
+            _ => None,
+        };
         deep(depth(did(d))) || deep(depth(mid(d))) || deep(swept)
     }
 }
@@ -309,7 +340,7 @@ impl Group for C15 {
         let mk = |s: &str| -> Vec<String> {
             s.split('|').map(|x| {
                 let t: Vec<&str> = x.split_whitespace().collect();
-                if t[0] == "add" { let mut l = "add".to_string(); for id in &t[1..] { l.push(' '); l.push_str(&tok(id.parse().unwrap())); } l } else { x.to_string() }
+                if t[0] == "add" || t[0] == "remove" { let mut l = t[0].to_string(); for id in &t[1..] { l.push(' '); l.push_str(&tok(id.parse().unwrap())); } l } else { x.to_string() }
             }).collect()
         };
         vec![
@@ -319,8 +350,12 @@ impl Group for C15 {
             mk("init|new 1|setup 1|add 11|add 13|forget 1|addn 98|heartbeat|addn 1|heartbeat|restart|new 1"),
             // not forgotten: survives; forget flag and restart
             mk("init|new 1|setup 1|add 11|add 13|addn 120|heartbeat|restart|heartbeat|forget 1|restart|heartbeat"),
+            // full sweep, reorg of the second-level sweep only (not re-mined), forget, burial: must NOT be pruned (seeded change C15/1)
+            mk("init|new 1|setup 1|add 11|add 14|add 15 16|add 17|remove 17|forget 1|addn 99|heartbeat|addn 1|heartbeat|addn 5|heartbeat"),
+            // the same with the sweep re-mined: pruned exactly at depth 100
+            mk("init|new 1|setup 1|add 11|add 14|add 15 16|add 17|remove 17|add 17|forget 1|addn 98|heartbeat|addn 1|heartbeat|addn 1|heartbeat"),
             // unilateral close, swept later; double spend on another channel
-            mk("init|new 1|new 2|setup 1|setup 2|add 11 22|add 14|forget 1|forget 2|addn 50|add 15|addn 60|heartbeat|addn 45|heartbeat"),
+            mk("init|new 1|new 2|setup 1|setup 2|add 11 22|add 14|forget 1|forget 2|addn 50|add 15 16|add 17|addn 60|heartbeat|addn 45|heartbeat"),
         ]
     }
     fn gen_case(&self, rng: &mut Rng, tier: Tier) -> Vec<String> {
@@ -333,6 +368,64 @@ impl Group for C15 {
             apply_basic(w, &op);
             ops.push(op);
         };
+        if rng.chance(2, 5) {
+            // directed family: unilateral close whose outputs (ours, the HTLC, the second-level output) are swept
+            // over several blocks; reorg of a suffix of the sweep blocks (re-mined or not); forget; burial of the
+            // last sweep at MIN_DEPTH-1 / MIN_DEPTH / MIN_DEPTH+1 with a heartbeat at each depth
+            let d = rng.range(1, NCH);
+            let addl = |ids: &[u64]| { let mut l = "add".to_string(); for x in ids { l.push(' '); l.push_str(&tok(*x)); } l };
+            push(&mut w, &mut ops, format!("new {}", d));
+            push(&mut w, &mut ops, format!("setup {}", d));
+            let forget_early = rng.chance(1, 3);
+            if forget_early { push(&mut w, &mut ops, format!("forget {}", d)); }
+            push(&mut w, &mut ops, addl(&[fid(d)]));
+            let mut order = vec![sid(d), tid(d)];
+            if rng.chance(1, 2) { order.swap(0, 1); }
+            let pos = order.iter().position(|x| *x == tid(d)).unwrap() + 1 + rng.below((order.len() - order.iter().position(|x| *x == tid(d)).unwrap()) as u64) as usize;
+            order.insert(pos.min(order.len()), vid(d));
+            let mut first = vec![uid(d)];
+            if rng.chance(1, 3) { first.push(order.remove(0)); }
+            push(&mut w, &mut ops, addl(&first));
+            let mut sweep_blocks = 0u64;
+            while !order.is_empty() {
+                if rng.chance(1, 4) { push(&mut w, &mut ops, "add".into()); sweep_blocks += 1; }
+                let k = if order.len() >= 2 && order[1] != vid(d) && rng.chance(1, 3) { 2 } else { 1 };
+                let blk: Vec<u64> = order.drain(..k).collect();
+                push(&mut w, &mut ops, addl(&blk));
+                sweep_blocks += 1;
+            }
+            if rng.chance(1, 4) { push(&mut w, &mut ops, "restart".into()); }
+            match rng.below(4) {
+                0 => {}
+                r => {
+                    // undo a suffix of the sweep blocks
+                    let k = rng.range(1, sweep_blocks.min(3));
+                    let mut removed: Vec<Vec<u64>> = Vec::new();
+                    for _ in 0..k {
+                        let blk = w.chain.last().unwrap().clone();
+                        push(&mut w, &mut ops, addl(&blk).replacen("add", "remove", 1));
+                        removed.push(blk);
+                    }
+                    if r == 3 {
+                        // re-mine them in one block
+                        let all: Vec<u64> = removed.iter().rev().flatten().cloned().collect();
+                        push(&mut w, &mut ops, addl(&all));
+                    }
+                }
+            }
+            if !forget_early && rng.chance(5, 6) { push(&mut w, &mut ops, format!("forget {}", d)); }
+            if rng.chance(1, 3) { push(&mut w, &mut ops, "restart".into()); }
+            // the tip block counts as depth 1
+            let k = *rng.pick(&[97u64, 98, 98]);
+            push(&mut w, &mut ops, format!("addn {}", k));
+            for _ in 0..3 {
+                push(&mut w, &mut ops, "heartbeat".into());
+                push(&mut w, &mut ops, "addn 1".into());
+            }
+            push(&mut w, &mut ops, "heartbeat".into());
+            push(&mut w, &mut ops, format!("new {}", d));
+            return ops;
+        }
         let steps = rng.range(5, if tier == Tier::Quick { 14 } else { 24 });
         let mut long_runs = 0;
         for _ in 0..steps {
@@ -363,6 +456,8 @@ impl Group for C15 {
                         if !has(fid(c)) && !has(did(c)) && !inb(&blk, fid(c)) { cand.push(did(c)); }
                         if (has(fid(c)) || inb(&blk, fid(c))) && !has(mid(c)) && !has(uid(c)) { cand.push(if rng.chance(1, 2) { mid(c) } else { uid(c) }); }
                         if (has(uid(c)) || inb(&blk, uid(c))) && !has(sid(c)) { cand.push(sid(c)); }
+                        if (has(uid(c)) || inb(&blk, uid(c))) && !has(tid(c)) { cand.push(tid(c)); }
+                        if has(tid(c)) && !has(vid(c)) { cand.push(vid(c)); }
                         for x in cand { if rng.chance(1, 2) && !blk.contains(&x) && !(x == did(c) && blk.contains(&fid(c))) { blk.push(x); } }
                     }
                     let mut l = "add".to_string();
@@ -476,6 +571,7 @@ impl Group for C15 {
             for d in ready_before.difference(&ready_after) {
                 let allowed = t[0] == "heartbeat" && forgot_req.contains(d) && wd.buried(*d);
                 co.tags.insert(format!("pruned:{}", if allowed { "allowed" } else { "NOT-ALLOWED" }));
+                if let Some(k) = wd.burial_depth(*d) { if k <= MIN_DEPTH_SPEC + 1 { co.tags.insert(format!("pruned:at-depth-{}", k)); } }
                 if !allowed {
                     co.violations.push(Violation { kind: "ready-channel-discarded-early".into(),
                         desc: format!("ready channel {} disappeared in `{}` (forget acknowledged: {}, terminal event buried >= {}: {})",
@@ -484,6 +580,13 @@ impl Group for C15 {
             }
             if t[0] == "heartbeat" {
                 for d in ready_after.iter() {
+                    if forgot_req.contains(d) {
+                        match wd.burial_depth(*d) {
+                            Some(k) if k + 1 == MIN_DEPTH_SPEC => { co.tags.insert("kept:forgotten-at-depth-99".into()); }
+                            None => { co.tags.insert("kept:forgotten-not-terminated-or-unswept".into()); }
+                            _ => {}
+                        }
+                    }
                     if forgot_req.contains(d) && wd.buried(*d) { co.tags.insert("kept-although-prunable".into()); }
                 }
             }
